@@ -92,7 +92,7 @@ func runHistoryFrom(c *core.Ctx, r *core.Result, ho histOpt, cur *tree.Tree, edi
 		var fs fsutil.FS
 		if ho.Synthetic {
 			ro.Src = cur.Clone()
-			sf := newSynthFS(ro.Src)
+			sf := newSynthFSReaders(ro.Src, R)
 			if ho.SlowFiles {
 				gr := R.Fork()
 				sf.Hook = func(op, p string) {
@@ -297,6 +297,13 @@ func c02Run(c *core.Ctx) *core.Result {
 	}
 	g, eo := histGenOpt(c.R)
 	ho := histOpt{Rounds: c.R.Range(1, 3), DiffNoneP: 5, Targeted: true, Synthetic: c.R.P(1, 4), Unchanged: c.R.P(1, 2), GenOpt: g, EditOpt: eo}
+	if c.R.P(1, 4) {
+		// a receiver-side Filter that rewrites metadata and is not idempotent
+		// (an id shift): the identity compared is the rewritten one, applied
+		// exactly once, so a re-sync still finds nothing to do
+		ho.Filter = rewritingFilter
+		r.Count("histories_with_rewriting_filter", 1)
+	}
 	obs := runHistory(c, r, ho)
 	if obs == nil {
 		return r
@@ -308,11 +315,11 @@ func c02Run(c *core.Ctx) *core.Result {
 			continue
 		}
 		r.Count("rounds", 1)
-		E, either := changedSet(o.Old, o.Src)
+		E, either := changedSet(o.Old, o.SrcF)
 		// expected requests
 		want := map[string]bool{}
 		opt := map[string]bool{}
-		for _, e := range o.Src.Entries {
+		for _, e := range o.SrcF.Entries {
 			if e.Type != tree.File || e.LinkTo != "" {
 				continue
 			}
@@ -348,14 +355,14 @@ func c02Run(c *core.Ctx) *core.Result {
 		sort.Strings(miss)
 		sort.Strings(extra)
 		if len(miss) > 0 || len(extra) > 0 {
-			r.ViolateD("req-set", map[string]any{"edits": o.Edits, "missing": miss, "extra": extra, "old": o.Old.Lines(), "src": o.Src.Lines()},
+			r.ViolateD("req-set", map[string]any{"edits": o.Edits, "missing": miss, "extra": extra, "old": o.Old.Lines(), "src": o.SrcF.Lines()},
 				"round %d (edits %v, differ=%d): content requests differ from the identity model: not requested %q, needlessly requested %q", i, o.Edits, o.Differ, miss, extra)
 		}
 		// untouched entries keep inode and bytes
 		if o.Differ != fsutil.DiffNone {
 			oi, ni := o.Old.Index(), o.New.Index()
 			untouched := 0
-			for _, e := range o.Src.Entries {
+			for _, e := range o.SrcF.Entries {
 				if E[e.Path] {
 					continue
 				}
@@ -387,7 +394,7 @@ func c02Run(c *core.Ctx) *core.Result {
 					}
 					r.Violate("unchanged-notify", "re-sync of an unchanged source emitted %d notifications: %q", len(o.Notes), ps)
 				}
-				if len(o.Src.Entries) > 0 {
+				if len(o.SrcF.Entries) > 0 {
 					r.Nontrivial = true
 				}
 			}
@@ -405,4 +412,17 @@ func c02Run(c *core.Ctx) *core.Result {
 		}
 	}
 	return r
+}
+
+// rewritingFilter is a receiver-side Filter that accepts everything and
+// rewrites ownership and mode; it is deliberately not idempotent.
+func rewritingFilter(p string, st *types.Stat) bool {
+	if st.Uid == 1234 {
+		st.Uid = 4242
+	}
+	st.Gid = st.Gid/2 + 7
+	if os.FileMode(st.Mode)&os.ModeSymlink == 0 {
+		st.Mode &^= 0o002 // (a symlink's mode cannot be changed)
+	}
+	return true
 }
